@@ -8,6 +8,7 @@ Driver for the C15 correspondence.  One request per line:
   `old <pps> <chunks>`   same through the pre-fix loop (`genLinesBeforeFix`)
   `files <pps> <files>`  files: `/`-separated chunk lists, one per generated file, through one processor list
                          (start state deliberately non-zero) → `/`-separated encoded file texts
+  `assemble <given> <limit> <trim>`  the processor list `_handle_post_processors` builds (see Model)
   `isws <codepoint>`     → `1` / `0`
 -/
 open NunavutVerif NunavutVerif.LineBuffer NunavutVerif.Proto
@@ -37,6 +38,26 @@ def answer (line : String) : String :=
     -- files: `/`-separated chunk lists; answer: `/`-separated encoded file texts
     match parsePPs pps, (splitOnChar files '/').mapM parseChunks with
     | some pps, some fs => "/".intercalate ((genFiles pps (pps.map fun _ => 7) fs).map encodeStr)
+    | _, _ => "bad-op"
+  | ["assemble", given, lim, tr] =>
+    -- given: `N` (None) | `-` (empty list) | comma list of T / L<n> / O<k>; lim: `N` | <n>; tr: 0 | 1
+    let parseItem (t : String) : Option Item :=
+      if t = "T" then some Item.trim
+      else if t.startsWith "L" then (t.drop 1).toString.toNat?.map Item.limit
+      else if t.startsWith "O" then (t.drop 1).toString.toNat?.map Item.other
+      else none
+    let g : Option (Option (List Item)) :=
+      if given = "N" then some none
+      else if given = "-" then some (some [])
+      else ((splitOnChar given ',').mapM parseItem).map some
+    let l : Option (Option Nat) := if lim = "N" then some none else lim.toNat?.map some
+    match g, l with
+    | some g, some l =>
+      match assemble g l (tr = "1") with
+      | none => "N"
+      | some [] => "-"
+      | some r => ",".intercalate (r.map fun i => match i with
+          | .trim => "T" | .limit n => s!"L{n}" | .other k => s!"O{k}")
     | _, _ => "bad-op"
   | ["isws", n] =>
     match n.toNat? with
